@@ -28,5 +28,8 @@ SPEC = {
                     "rejected by both sides)"],
     "explanation": "Harness oracle = the ledger formula evaluated independently: BLAKE2b-256 over the ORIGINAL bytes of witness-set "
                    "fields 5 and 4 (located by an independent CBOR walker) and language views written by an independent canonical-CBOR "
-                   "writer that sorts keys by (encoded length, bytes); real transactions are also compared with the hash in their body.",
+                   "writer that sorts keys by (encoded length, bytes); real transactions are also compared with the hash in their body. "
+                   "Self-tests run (pallas worktree edits, reverted): LanguageViews pushing V1 first -> VIOLATION (views-bytes, hash-formula, "
+                   "build-real-tx, txbuilder-hash); iterating the BTreeMap keys without collect+sort -> quiet. On the unchanged tree the "
+                   "check reproduced build-redeemers-reencoded and txbuilder-hash-datum-only / -without-script-data before the two fix commits.",
 }
